@@ -1010,12 +1010,16 @@ ComponentPtr flattenComponent(const ComponentEntityPtr &parent, ComponentPtr &co
             std::string originalName = entry.first;
             size_t count = 0;
             std::string newName = originalName;
-            while (std::find(compNames.begin(), compNames.end(), newName) != compNames.end()) {
+            // A new name must be free in the importing model, must not be the name of another component of the imported
+            // hierarchy, and must not have been handed out a moment ago.
+            while ((std::find(compNames.begin(), compNames.end(), newName) != compNames.end())
+                   || ((newName != originalName) && (newComponentNames.count(newName) != 0))) {
                 newName = originalName + "_" + convertToString(++count);
             }
             if (originalName != newName) {
                 entry.second->setName(newName);
             }
+            compNames.push_back(newName);
         }
 
         // If the component 'component' has variables then they are equivalent variables and they
